@@ -287,10 +287,11 @@ theorem write_alloc_bounded (env : UrlEnv) (w : W) (buf : Bytes) (a : Answer) :
       subst hn
       exact ⟨Int.min_le_right _ _, Int.min_le_left _ _⟩
 
-/-- `PushBlobChunked` allocates exactly the caller's chunk size (or the default): the
+/-- `PushBlobChunked` allocates the caller's chunk size (or the default), but never more than the default (fix F38:
+the hint is only a hint - before the fix the allocation WAS the hint, and `math.MaxInt` panicked `makeslice`); the
 `OCI-Chunk-Min-Length` of the answer has no influence. -/
 theorem start_alloc_is_callers (env : UrlEnv) (u : Loc) (hint : Int) (a : Answer) :
-    ∀ n ∈ (start env u hint a).2.2, n = if hint ≤ 0 then defaultChunkSize else hint := by
+    ∀ n ∈ (start env u hint a).2.2, n = min (if hint ≤ 0 then defaultChunkSize else hint) defaultChunkSize := by
   intro n hn
   unfold start at hn
   simp only at hn
@@ -299,6 +300,14 @@ theorem start_alloc_is_callers (env : UrlEnv) (u : Loc) (hint : Int) (a : Answer
   · split at hn
     · simp at hn
     · simpa using hn
+
+/-- **Every allocation of the writer is bounded by the default chunk size**, whatever hint the caller passes and
+whatever the registry answers (F18 for the resumed writer, F38 for the fresh one). -/
+theorem start_alloc_bounded (env : UrlEnv) (u : Loc) (hint : Int) (a : Answer) :
+    ∀ n ∈ (start env u hint a).2.2, n ≤ defaultChunkSize := by
+  intro n hn
+  rw [start_alloc_is_callers env u hint a n hn]
+  exact Int.min_le_right _ _
 
 /-- No other call allocates. -/
 theorem other_calls_do_not_allocate (env : UrlEnv) (w : W) (c : Call) (a : Answer)
